@@ -9,7 +9,8 @@ Record scope_rec := mkRec {
   r_cancelled : bool;          (* _cancel_called *)
   r_shield : bool;             (* _shield *)
   r_deadline : option Z;       (* _deadline; None = +inf *)
-  r_chandle : bool             (* _cancel_handle is not None *)
+  r_chandle : bool;            (* _cancel_handle is not None *)
+  r_hosted : bool              (* _host_task is not None: entered and not yet exited *)
 }.
 
 (* what is_anyio_cancellation reads of one exception of a __context__ chain *)
@@ -23,8 +24,16 @@ Definition is_nil {A} (l : list A) : bool := match l with [] => true | _ => fals
 Definition next_is_cancelled_error (rest : list exc_rec) : bool :=
   match rest with n :: _ => x_is_cancelled_error n | [] => false end.
 
-(* a scope the upward walks pass through: neither cancelled nor shielded *)
-Definition open_rec (r : scope_rec) : Prop := r_cancelled r = false /\ r_shield r = false.
+(* _visible_parent_scope is None: the scope is shielded, or it has been exited (an exited scope is unlinked from its
+   parent, cancellation can no longer be delivered through it; F42) *)
+Definition stops (r : scope_rec) : bool := r_shield r || negb (r_hosted r).
+
+(* a scope the upward walks of _effectively_cancelled / checkpoint_if_cancelled / current_effective_deadline pass
+   through: not cancelled, not shielded, still entered *)
+Definition open_rec (r : scope_rec) : Prop := r_cancelled r = false /\ stops r = false.
+
+(* a scope the walks of check_cancelled / _restart_cancellation pass through: neither cancelled nor shielded *)
+Definition open_sh (r : scope_rec) : Prop := r_cancelled r = false /\ r_shield r = false.
 
 (* ------------------------------------------------------------------------------------------------ *)
 (* 1. _effectively_cancelled (also: checkpoint_if_cancelled spins, check_cancelled raises)           *)
@@ -32,7 +41,7 @@ Definition open_rec (r : scope_rec) : Prop := r_cancelled r = false /\ r_shield 
 Fixpoint eff_cancelled_spec (l : list scope_rec) : bool :=
   match l with
   | [] => false
-  | r :: rest => r_cancelled r || (negb (r_shield r) && eff_cancelled_spec rest)
+  | r :: rest => r_cancelled r || (negb (stops r) && eff_cancelled_spec rest)
   end.
 
 (* Prop reading: some scope of the chain is cancelled and everything below it is open *)
@@ -50,6 +59,49 @@ Proof.
         apply IH in Hr. destruct Hr as (pre & r & post & E & Hp & Hc).
         exists (a :: pre), r, post. refine (conj _ (conj _ Hc)).
         -- cbn. now rewrite E.
+        -- constructor; [|exact Hp]. split; [exact Ec|]. now destruct (stops a).
+    + intros (pre & r & post & E & Hp & Hc). destruct pre as [|b pre].
+      * cbn in E. injection E as -> ->. now rewrite Hc.
+      * cbn in E. injection E as -> ->. inversion Hp as [|x y [Hx1 Hx2] Hy]; subst.
+        rewrite Hx1, Hx2. cbn. apply IH. exists pre, r, post. auto.
+Qed.
+
+(* the part of the chain the walks can see: up to and including the nearest shielded or exited scope *)
+Fixpoint visible (l : list scope_rec) : list scope_rec :=
+  match l with
+  | [] => []
+  | r :: rest => if stops r then [r] else r :: visible rest
+  end.
+
+Lemma eff_cancelled_spec_visible l : eff_cancelled_spec l = existsb r_cancelled (visible l).
+Proof.
+  induction l as [|a l IH]; cbn [eff_cancelled_spec visible]; [reflexivity|].
+  destruct (stops a); cbn [existsb negb andb].
+  - now rewrite !orb_false_r.
+  - now rewrite IH.
+Qed.
+
+Definition ckif_spins_spec (l : list scope_rec) : bool := eff_cancelled_spec l.
+
+(* the walk that only stops at shields (check_cancelled, _restart_cancellation; before the F42 fix: all walks) *)
+Fixpoint sh_cancelled_spec (l : list scope_rec) : bool :=
+  match l with
+  | [] => false
+  | r :: rest => r_cancelled r || (negb (r_shield r) && sh_cancelled_spec rest)
+  end.
+
+Lemma sh_cancelled_spec_iff l :
+  sh_cancelled_spec l = true <-> exists pre r post, l = pre ++ r :: post /\ Forall open_sh pre /\ r_cancelled r = true.
+Proof.
+  induction l as [|a l IH]; cbn [sh_cancelled_spec].
+  - split; [discriminate|]. intros (pre & r & post & E & _). destruct pre; discriminate.
+  - split.
+    + intros H. destruct (r_cancelled a) eqn:Ec.
+      * exists [], a, l. refine (conj eq_refl (conj _ Ec)). constructor.
+      * cbn [orb] in H. apply andb_true_iff in H. destruct H as [Hs Hr].
+        apply IH in Hr. destruct Hr as (pre & r & post & E & Hp & Hc).
+        exists (a :: pre), r, post. refine (conj _ (conj _ Hc)).
+        -- cbn. now rewrite E.
         -- constructor; [|exact Hp]. split; [exact Ec|]. now destruct (r_shield a).
     + intros (pre & r & post & E & Hp & Hc). destruct pre as [|b pre].
       * cbn in E. injection E as -> ->. now rewrite Hc.
@@ -57,23 +109,19 @@ Proof.
         rewrite Hx1, Hx2. cbn. apply IH. exists pre, r, post. auto.
 Qed.
 
-(* the part of the chain the walks can see: up to and including the nearest shielded scope *)
-Fixpoint visible (l : list scope_rec) : list scope_rec :=
-  match l with
-  | [] => []
-  | r :: rest => if r_shield r then [r] else r :: visible rest
-  end.
+Definition check_cancelled_raises_spec (l : list scope_rec) : bool := sh_cancelled_spec l.
 
-Lemma eff_cancelled_spec_visible l : eff_cancelled_spec l = existsb r_cancelled (visible l).
+(* on chains whose scopes are all still entered the two kinds of walk coincide *)
+Definition all_hosted (l : list scope_rec) : Prop := Forall (fun r => r_hosted r = true) l.
+
+Lemma stops_hosted r : r_hosted r = true -> stops r = r_shield r.
+Proof. intros H. unfold stops. rewrite H. apply orb_false_r. Qed.
+
+Lemma sh_cancelled_hosted l : all_hosted l -> sh_cancelled_spec l = eff_cancelled_spec l.
 Proof.
-  induction l as [|a l IH]; cbn [eff_cancelled_spec visible]; [reflexivity|].
-  destruct (r_shield a); cbn [existsb negb andb].
-  - now rewrite !orb_false_r.
-  - now rewrite IH.
+  induction 1 as [|a l Ha _ IH]; [reflexivity|]. cbn [sh_cancelled_spec eff_cancelled_spec].
+  now rewrite IH, (stops_hosted a Ha).
 Qed.
-
-Definition ckif_spins_spec (l : list scope_rec) : bool := eff_cancelled_spec l.
-Definition check_cancelled_raises_spec (l : list scope_rec) : bool := eff_cancelled_spec l.
 
 (* ------------------------------------------------------------------------------------------------ *)
 (* 2. _parent_cancellation_is_visible_to_us; the chain starts at the scope itself                    *)
@@ -208,7 +256,7 @@ Definition restart_target_spec (l : list scope_rec) : option nat :=
 
 Lemma first_cancelled_iff l i r :
   first_cancelled l = Some (i, r) <->
-  exists pre post, l = pre ++ r :: post /\ length pre = i /\ Forall open_rec pre /\ r_cancelled r = true.
+  exists pre post, l = pre ++ r :: post /\ length pre = i /\ Forall open_sh pre /\ r_cancelled r = true.
 Proof.
   revert i. induction l as [|a l IH]; intros i; cbn [first_cancelled].
   - split; [discriminate|]. intros (pre & post & E & _). destruct pre; discriminate.
@@ -240,7 +288,7 @@ Qed.
 
 Theorem restart_target_spec_iff l i :
   restart_target_spec l = Some i <->
-  exists pre r post, l = pre ++ r :: post /\ length pre = i /\ Forall open_rec pre /\
+  exists pre r post, l = pre ++ r :: post /\ length pre = i /\ Forall open_sh pre /\
                      r_cancelled r = true /\ r_chandle r = false.
 Proof.
   unfold restart_target_spec. split.
@@ -253,9 +301,9 @@ Proof.
     now rewrite H, Hh.
 Qed.
 
-Lemma first_cancelled_some_eff l : eff_cancelled_spec l = true <-> exists p, first_cancelled l = Some p.
+Lemma first_cancelled_some_eff l : sh_cancelled_spec l = true <-> exists p, first_cancelled l = Some p.
 Proof.
-  induction l as [|a l IH]; cbn [eff_cancelled_spec first_cancelled].
+  induction l as [|a l IH]; cbn [sh_cancelled_spec first_cancelled].
   - split; [discriminate|]. intros [p H]; discriminate.
   - destruct (r_cancelled a); cbn [orb].
     + split; eauto.
@@ -309,7 +357,8 @@ Qed.
 (* 6. abstraction of a machine state into the chain above a scope                                     *)
 (* ------------------------------------------------------------------------------------------------ *)
 Definition rec_of (c : scope) : scope_rec :=
-  mkRec (s_cancelled c) (s_shield c) (s_deadline c) (s_chandle c).
+  mkRec (s_cancelled c) (s_shield c) (s_deadline c) (s_chandle c)
+        (match s_host c with Some _ => true | None => false end).
 
 Fixpoint chain_of (fuel : nat) (s : st) (x : option sid) : list scope_rec :=
   match fuel, x with
@@ -349,3 +398,43 @@ Proof.
   destruct x as [c|]; cbn [chain_of]; [|reflexivity].
   destruct (H c) as [-> ->]. now rewrite IH.
 Qed.
+
+(* ------------------------------------------------------------------------------------------------ *)
+(* 7. F42: the three walks stop at an exited scope (host = None) and ignore everything above it        *)
+(* ------------------------------------------------------------------------------------------------ *)
+Lemma eff_cancelled_spec_stop pre e post :
+  stops e = true -> eff_cancelled_spec (pre ++ e :: post) = eff_cancelled_spec (pre ++ [e]).
+Proof.
+  intros He. induction pre as [|a pre IH]; cbn [app eff_cancelled_spec]; [|now rewrite IH].
+  rewrite He. cbn [negb andb]. reflexivity.
+Qed.
+
+Lemma visible_stop pre e post : stops e = true -> visible (pre ++ e :: post) = visible (pre ++ [e]).
+Proof.
+  intros He. induction pre as [|a pre IH]; cbn [app visible]; [now rewrite He|]. now rewrite IH.
+Qed.
+
+Theorem chain_walk_stops_at_exited_scope pre e post :
+  r_hosted e = false ->
+  eff_cancelled_spec (pre ++ e :: post) = eff_cancelled_spec (pre ++ [e]) /\
+  ckif_spins_spec (pre ++ e :: post) = ckif_spins_spec (pre ++ [e]) /\
+  eff_deadline_spec (pre ++ e :: post) = eff_deadline_spec (pre ++ [e]).
+Proof.
+  intros He. assert (Hs : stops e = true) by (unfold stops; rewrite He; apply orb_true_r).
+  unfold ckif_spins_spec, eff_deadline_spec, eff_deadline_acc.
+  now rewrite (eff_cancelled_spec_stop pre e post Hs), (visible_stop pre e post Hs).
+Qed.
+
+(* non-vacuity: a task left in an exited scope below a cancelled ancestor (the F42 situation) *)
+Definition f42_chain : list scope_rec :=
+  [mkRec false false None false false;          (* the exited internal scope of run_sync(): host = None *)
+   mkRec true false (Some 3%Z) true true].      (* its former parent: cancelled, delivery running *)
+
+Example f42_new_walks :
+  eff_cancelled_spec f42_chain = false /\ ckif_spins_spec f42_chain = false /\ eff_deadline_spec f42_chain = XInf.
+Proof. repeat split; reflexivity. Qed.
+
+(* the walk that stops only at shields (every walk before the fix) sees the cancelled ancestor although no delivery
+   can reach the task: checkpoint_if_cancelled spins forever *)
+Example f42_old_walk_refuted_pinned : sh_cancelled_spec f42_chain = true /\ eff_cancelled_spec f42_chain = false.
+Proof. split; reflexivity. Qed.
